@@ -313,6 +313,30 @@ Proof.
   - exists 12%nat. split; vm_compute; reflexivity.
 Qed.
 
+(* ------------------------------------------------------------------ the anyOf routes (convert_any_of): Option, untagged
+   (corpus/convert/anyof_union_example.json; T_any is the REAL type space): anyOf ["$ref", null] as schemars writes
+   Option<T>, anyOf of two scalar types *)
+Definition D_any : defs := [([76; 101; 97; 102]%N, (SObj (Some [TObject]) None None None (mkNumv None None None None None) (mkStrv None None None) ItemsAbsent (@nil schema) None None None false [([118]%N, (SObj (Some [TInteger]) None None None (mkNumv None None None None None) (mkStrv None None None) ItemsAbsent (@nil schema) None None None false (@nil (ustring * schema)) (@nil ustring) None None None None None None None None None None))] [[118]%N] None None None None None None None None None None)); ([77; 97; 121; 98; 101]%N, (SObj None None None None (mkNumv None None None None None) (mkStrv None None None) ItemsAbsent (@nil schema) None None None false (@nil (ustring * schema)) (@nil ustring) None None None None (Some [(SObj None None None None (mkNumv None None None None None) (mkStrv None None None) ItemsAbsent (@nil schema) None None None false (@nil (ustring * schema)) (@nil ustring) None None None None None None None (Some [76; 101; 97; 102]%N) None None); (SObj (Some [TNull]) None None None (mkNumv None None None None None) (mkStrv None None None) ItemsAbsent (@nil schema) None None None false (@nil (ustring * schema)) (@nil ustring) None None None None None None None None None None)]) None None None None None)); ([82; 101; 99]%N, (SObj (Some [TObject]) None None None (mkNumv None None None None None) (mkStrv None None None) ItemsAbsent (@nil schema) None None None false [([105; 100]%N, (SObj None None None None (mkNumv None None None None None) (mkStrv None None None) ItemsAbsent (@nil schema) None None None false (@nil (ustring * schema)) (@nil ustring) None None None None (Some [(SObj (Some [TString]) None None None (mkNumv None None None None None) (mkStrv None None None) ItemsAbsent (@nil schema) None None None false (@nil (ustring * schema)) (@nil ustring) None None None None None None None None None None); (SObj (Some [TInteger]) (Some [117; 105; 110; 116; 51; 50]%N) None None (mkNumv None None None None None) (mkStrv None None None) ItemsAbsent (@nil schema) None None None false (@nil (ustring * schema)) (@nil ustring) None None None None None None None None None None)]) None None None None None)); ([109]%N, (SObj None None None None (mkNumv None None None None None) (mkStrv None None None) ItemsAbsent (@nil schema) None None None false (@nil (ustring * schema)) (@nil ustring) None None None None None None None (Some [77; 97; 121; 98; 101]%N) None None)); ([110; 101; 120; 116]%N, (SObj None None None None (mkNumv None None None None None) (mkStrv None None None) ItemsAbsent (@nil schema) None None None false (@nil (ustring * schema)) (@nil ustring) None None None None (Some [(SObj (Some [TNull]) None None None (mkNumv None None None None None) (mkStrv None None None) ItemsAbsent (@nil schema) None None None false (@nil (ustring * schema)) (@nil ustring) None None None None None None None None None None); (SObj (Some [TArray]) None None None (mkNumv None None None None None) (mkStrv None None None) ItemsSingle [(SObj None None None None (mkNumv None None None None None) (mkStrv None None None) ItemsAbsent (@nil schema) None None None false (@nil (ustring * schema)) (@nil ustring) None None None None None None None (Some [82; 101; 99]%N) None None)] None None None false (@nil (ustring * schema)) (@nil ustring) None None None None None None None None None None)]) None None None None None))] [[105; 100]%N; [109]%N] None None None None None None None None None None))].
+Definition T_any : space := (mkSpace [(1%N, (mkEntry (DStruct [76; 101; 97; 102]%N None [(mkProp [118]%N RNone PRequired 4%N)] false) (@nil ustring))); (2%N, (mkEntry (DNewtype [77; 97; 121; 98; 101]%N None 5%N CNone) (@nil ustring))); (3%N, (mkEntry (DStruct [82; 101; 99]%N None [(mkProp [105; 100]%N RNone PRequired 8%N); (mkProp [109]%N RNone PRequired 2%N); (mkProp [110; 101; 120; 116]%N RNone POptional 10%N)] false) (@nil ustring))); (4%N, (mkEntry (DInteger [105; 54; 52]%N) (@nil ustring))); (5%N, (mkEntry (DOption 1%N) (@nil ustring))); (6%N, (mkEntry DString (@nil ustring))); (7%N, (mkEntry (DInteger [117; 51; 50]%N) (@nil ustring))); (8%N, (mkEntry (DEnum [82; 101; 99; 73; 100]%N None TagUntagged [(mkVariant [86; 97; 114; 105; 97; 110; 116; 48]%N [86; 97; 114; 105; 97; 110; 116; 48]%N (VItem 6%N)); (mkVariant [86; 97; 114; 105; 97; 110; 116; 49]%N [86; 97; 114; 105; 97; 110; 116; 49]%N (VItem 7%N))] false [UntaggedFromStr; UntaggedDisplay]) (@nil ustring))); (9%N, (mkEntry (DVec 3%N) (@nil ustring))); (10%N, (mkEntry (DOption 9%N) (@nil ustring)))] 11%N (mkSettings None (@nil ustring) false [58; 58; 32; 115; 116; 100; 32; 58; 58; 32; 99; 111; 108; 108; 101; 99; 116; 105; 111; 110; 115; 32; 58; 58; 32; 72; 97; 115; 104; 77; 97; 112]%N) false false false false (@nil ustring)).
+Definition v_any : json := (JObj [([105; 100]%N, (JInt (7)%Z)); ([109]%N, JNull); ([110; 101; 120; 116]%N, (JArr [(JObj [([105; 100]%N, (JStr [120]%N)); ([109]%N, (JObj [([118]%N, (JInt (1)%Z))]))]); (JObj [([105; 100]%N, (JInt (1)%Z)); ([109]%N, JNull); ([110; 101; 120; 116]%N, JNull)])]))]).
+
+Example C02F_any_in_frag : in_frag Sanitize.ascii_classes D_any = true.
+Proof. vm_compute. reflexivity. Qed.
+
+Example C02F_any_convert : convert_doc Sanitize.ascii_classes D_any = Some T_any.
+Proof. vm_compute. reflexivity. Qed.
+
+Example C02F_any_accepted : exists f, de no_re no_re T_any f 3%N v_any <> None.
+Proof.
+  apply (C02F_fragment_sound Sanitize.ascii_classes no_re no_re no_re D_any T_any) with (r := [82; 101; 99]%N).
+  - intros f n s _ H. discriminate H.
+  - exact C02F_any_in_frag.
+  - exact C02F_any_convert.
+  - vm_compute. right. right. left. reflexivity.
+  - vm_compute. reflexivity.
+  - exists 12%nat. split; vm_compute; reflexivity.
+Qed.
+
 (* a by-value cycle (needs a Box from break_cycles) is outside the fragment *)
 Example C02F_cycle_out : in_frag Sanitize.ascii_classes D_cycle = false.
 Proof. vm_compute. reflexivity. Qed.
